@@ -139,6 +139,42 @@ impl<'s, 'w, W: Write, S: Borrow<Schema>> SchemaAwareSerializer<'s, 'w, W, S> {
         }
     }
 
+    /// Get the index and schema of the record that represents the enum variant `variant` in the union.
+    ///
+    /// This is the record at `variant_index`, unless the enum has variants with `#[serde(skip)]`:
+    /// those are not part of the derived union but Serde still counts them, so the record is then
+    /// searched by its name (like the slow path for plain enums).
+    ///
+    /// If there is no such record, the variant at `variant_index` is returned.
+    fn get_union_variant_record(
+        &self,
+        union: &'s UnionSchema,
+        variant_index: u32,
+        variant: &str,
+        is_variant_record: impl Fn(&RecordSchema) -> bool,
+    ) -> Result<(u32, &'s Schema), Error> {
+        let matches = |schema: &Schema| matches!(schema, Schema::Record(record) if record.name.name() == variant && is_variant_record(record));
+        if (variant_index as usize) < union.variants().len() {
+            let schema = self.get_resolved_union_variant(union, variant_index)?;
+            if matches(schema) {
+                return Ok((variant_index, schema));
+            }
+        }
+        for (index, schema) in union.variants().iter().enumerate() {
+            let schema = match schema {
+                Schema::Ref { name } => self.config.get_schema(name)?,
+                schema => schema,
+            };
+            if matches(schema) {
+                return Ok((index as u32, schema));
+            }
+        }
+        Ok((
+            variant_index,
+            self.get_resolved_union_variant(union, variant_index)?,
+        ))
+    }
+
     /// Write an integer to the writer.
     ///
     /// This will check that the current schema is [`Schema::Int`] or a logical type based on that.
@@ -445,17 +481,18 @@ impl<'s, 'w, W: Write, S: Borrow<Schema>> Serializer for SchemaAwareSerializer<'
                     Err(self.error("unit variant", format!(r#"Expected symbol "{variant}" at index {variant_index} in enum"#)))
                 }
             }
-            Schema::Union(union) if (variant_index as usize) < union.variants().len() => match self.get_resolved_union_variant(union, variant_index)? {
+            Schema::Union(union) if (variant_index as usize) < union.variants().len() && matches!(self.get_resolved_union_variant(union, variant_index)?, Schema::Null) => {
                 // Bare union
-                Schema::Null => zig_i32(variant_index as i32, &mut *self.writer),
-                Schema::Record(record) if record.fields.is_empty() && record.name.name() == variant => {
+                zig_i32(variant_index as i32, &mut *self.writer)
+            }
+            Schema::Union(union) => match self.get_union_variant_record(union, variant_index, variant, |record| record.fields.is_empty()) {
+                Ok((index, Schema::Record(record))) if record.fields.is_empty() && record.name.name() == variant => {
                     // Union of records
-                    zig_i32(variant_index as i32, &mut *self.writer)
+                    zig_i32(index as i32, &mut *self.writer)
                 }
+                // This also happens if the enum has more variants than the union, which is valid if the target schema is a enum schema in the union
                 _ => UnionSerializer::new(self.writer, union, self.config).serialize_unit_variant(name, variant_index, variant)
             }
-            // This branch happens if the enum has more variants than the union, which is valid if the target schema is a enum schema in the union
-            Schema::Union(union) => UnionSerializer::new(self.writer, union, self.config).serialize_unit_variant(name, variant_index, variant),
             _ => Err(self.error("unit variant", format!("Expected Schema::Enum(symbols[{variant_index}] == {variant}) | Schema::Union(variants[{variant_index}] == Schema::Null | Schema::Record(name: {variant}, fields: []))"))),
         }
     }
@@ -493,27 +530,36 @@ impl<'s, 'w, W: Write, S: Borrow<Schema>> Serializer for SchemaAwareSerializer<'
         T: ?Sized + Serialize,
     {
         match self.schema {
-            Schema::Union(union) => match self.get_resolved_union_variant(union, variant_index)? {
-                Schema::Record(record)
-                    if record.fields.len() == 1
-                        && record.name.name() == variant
+            Schema::Union(union) => {
+                let is_newtype_record = |record: &RecordSchema| {
+                    record.fields.len() == 1
                         && record
                             .attributes
                             .get("org.apache.avro.rust.union_of_records")
-                            == Some(&Bool(true)) =>
-                {
-                    // Union of records
-                    let mut bytes_written = zig_i32(variant_index as i32, &mut *self.writer)?;
-                    let schema = &record.fields[0].schema;
-                    bytes_written += value.serialize(self.with_different_schema(schema)?)?;
-                    Ok(bytes_written)
+                            == Some(&Bool(true))
+                };
+                match self.get_union_variant_record(
+                    union,
+                    variant_index,
+                    variant,
+                    is_newtype_record,
+                )? {
+                    (index, Schema::Record(record))
+                        if is_newtype_record(record) && record.name.name() == variant =>
+                    {
+                        // Union of records
+                        let mut bytes_written = zig_i32(index as i32, &mut *self.writer)?;
+                        let schema = &record.fields[0].schema;
+                        bytes_written += value.serialize(self.with_different_schema(schema)?)?;
+                        Ok(bytes_written)
+                    }
+                    (index, schema) => {
+                        let mut bytes_written = zig_i32(index as i32, &mut *self.writer)?;
+                        bytes_written += value.serialize(self.with_different_schema(schema)?)?;
+                        Ok(bytes_written)
+                    }
                 }
-                schema => {
-                    let mut bytes_written = zig_i32(variant_index as i32, &mut *self.writer)?;
-                    bytes_written += value.serialize(self.with_different_schema(schema)?)?;
-                    Ok(bytes_written)
-                }
-            },
+            }
             _ => Err(self.error("newtype variant", "Expected Schema::Union")),
         }
     }
@@ -586,11 +632,14 @@ impl<'s, 'w, W: Write, S: Borrow<Schema>> Serializer for SchemaAwareSerializer<'
         len: usize,
     ) -> Result<Self::SerializeTupleVariant, Self::Error> {
         if let Schema::Union(union) = self.schema
-            && let Schema::Record(record) = self.get_resolved_union_variant(union, variant_index)?
+            && let (index, Schema::Record(record)) =
+                self.get_union_variant_record(union, variant_index, variant, |record| {
+                    record.fields.len() == len
+                })?
             && record.fields.len() == len
             && record.name.name() == variant
         {
-            let bytes_written = zig_i32(variant_index as i32, &mut *self.writer)?;
+            let bytes_written = zig_i32(index as i32, &mut *self.writer)?;
             Ok(ManyTupleSerializer::new(
                 self.writer,
                 record,
@@ -661,11 +710,14 @@ impl<'s, 'w, W: Write, S: Borrow<Schema>> Serializer for SchemaAwareSerializer<'
         len: usize,
     ) -> Result<Self::SerializeStructVariant, Self::Error> {
         if let Schema::Union(union) = self.schema
-            && let Schema::Record(record) = self.get_resolved_union_variant(union, variant_index)?
+            && let (index, Schema::Record(record)) =
+                self.get_union_variant_record(union, variant_index, variant, |record| {
+                    record.fields.len() == len
+                })?
             && record.fields.len() == len
             && record.name.name() == variant
         {
-            let bytes_written = zig_i32(variant_index as i32, &mut *self.writer)?;
+            let bytes_written = zig_i32(index as i32, &mut *self.writer)?;
             Ok(RecordSerializer::new(
                 self.writer,
                 record,
